@@ -160,6 +160,12 @@ def call_pyobj(ex, obj, args, kwargs, st, fr, n):
         v = args[0]
         if isinstance(v, VStr) and v.kind in ('bytes', 'mv'):
             return ex.val(VStr(v.t, 'bytes'), st)
+        if isinstance(v, VRef) and isinstance(st.heap[v.ref], HBytes):
+            return ex.val(VStr(st.heap[v.ref].t, 'bytes'), st)
+    if obj is _b.bytearray:
+        v = args[0]
+        if isinstance(v, VStr) and v.kind in ('bytes', 'mv'):
+            return ex.val(st.alloc(HBytes(v.t)), st)
     if obj is _b.int:
         return b_int(ex, args, kwargs, st)
     if obj is _b.str:
@@ -206,6 +212,8 @@ def b_len(ex, v, st):
         return ex.val(VInt(len(v.items)), st)
     if isinstance(v, VRef):
         h = st.heap[v.ref]
+        if isinstance(h, HBytes):
+            return ex.val(VInt(z3.Length(h.t)), st)
         if isinstance(h, HList):
             return ex.val(VInt(0 if h.seq is None else z3.Length(h.seq)), st)
         if isinstance(h, HDict):
@@ -723,6 +731,8 @@ def deref_field(v, p, st):
 def havoc_val(ex, cur, path, st):
     if isinstance(cur, VRef):
         h = st.heap[cur.ref]
+        if isinstance(h, HBytes):
+            return st.alloc(HBytes(z3.String(fresh_name(path))))
         if isinstance(h, HList):
             return st.alloc(HList(h.etype, z3.Const(fresh_name(path), z3.SeqSort(sort_of(h.etype)))))
         if isinstance(h, HDict):
